@@ -131,11 +131,28 @@ def c13_sites(repo_root, tier):
             "functions": [{"target": "liquid2/* file-read sites and loader call sites", "status": "ok"}]}
 
 
-def _ordinal(fn, node):
-    nodes = sorted((n for n in own_nodes(fn) if isinstance(n, ast.Call)), key=lambda n: (n.lineno, n.col_offset))
-    for i, n in enumerate(nodes):
+def _preorder(fn):
+    """Nodes of fn's own body in structural pre-order (nested defs/classes/lambdas skipped): independent of line numbers and layout."""
+    def rec(n):
+        yield n
+        for ch in ast.iter_child_nodes(n):
+            if isinstance(ch, (ast.FunctionDef, ast.AsyncFunctionDef, ast.ClassDef, ast.Lambda)):
+                continue
+            yield from rec(ch)
+    for st in fn.body:
+        if isinstance(st, (ast.FunctionDef, ast.AsyncFunctionDef, ast.ClassDef)):
+            continue
+        yield from rec(st)
+
+
+def _ordinal(fn, node, kind=ast.Call):
+    """Index of `node` among the nodes of the same kind in fn (structural order): stable under reformatting."""
+    i = 0
+    for n in _preorder(fn):
         if n is node:
             return i
+        if isinstance(n, kind):
+            i += 1
     return -1
 
 
@@ -341,7 +358,8 @@ STRICT_RAISE = "raise UndefinedError(self.msg, token=self.token)"
 
 
 def _body_wo_doc(fn):
-    return [s for s in fn.body if not (isinstance(s, ast.Expr) and isinstance(s.value, ast.Constant))]
+    from .frame import significant_body
+    return significant_body(fn)
 
 
 @register("C16")
@@ -421,8 +439,16 @@ def c16_sites(repo_root, tier):
         _ob(obs, f"liquid2.context:RenderContext.{name}/site.undefined-only-on-failure", ok, note)
     # (5) Environment uses the configured policy class and nothing else
     em = repo.module("liquid2.environment")
-    src = em.source if em else ""
-    _ob(obs, "liquid2.environment:Environment/site.undefined-policy", "self.undefined = undefined" in src and "undefined: Type[Undefined] = Undefined" in src.replace("type[", "Type["),
+    init = em.find("Environment.__init__") if em else None
+    ok = False
+    if init is not None:
+        allp = list(init.args.args) + list(init.args.kwonlyargs)
+        defaults = dict(zip([a.arg for a in init.args.args][len(init.args.args) - len(init.args.defaults):], init.args.defaults))
+        defaults.update({a.arg: d for a, d in zip(init.args.kwonlyargs, init.args.kw_defaults) if d is not None})
+        has_param = any(a.arg == "undefined" for a in allp) and ast.unparse(defaults.get("undefined", ast.Constant(None))) == "Undefined"
+        stored = any(isinstance(n, ast.Assign) and ast.unparse(n.targets[0]) == "self.undefined" and ast.unparse(n.value) == "undefined" for n in ast.walk(init))
+        ok = has_param and stored
+    _ob(obs, "liquid2.environment:Environment/site.undefined-policy", ok,
         "the policy class is the constructor argument `undefined` (default: Undefined)")
     return {"obligations": obs, "samples": [{"obligation": o["oid"], "backend": "site", "note": o["note"]} for o in obs[:2]],
             "trusted": [], "functions": [],
@@ -477,12 +503,12 @@ def c05_sites(repo_root, tier):
                 elif isinstance(n, ast.Attribute) and n.attr in FORBIDDEN_ATTRS:
                     n_sites += 1
                     ok = ast.unparse(n).startswith("object.__getattribute__(") or ast.unparse(n) == "object.__getattribute__"
-                    _ob(obs, f"{m.name}:{qual}/site.attr.{n.attr}@{n.lineno}", ok, f"{ast.unparse(n)}: " + ("object.__getattribute__ on self inside StrictUndefined" if ok else "reflective attribute"))
+                    _ob(obs, f"{m.name}:{qual}/site.attr.{n.attr}@{_ordinal(fn, n, ast.Attribute)}", ok, f"{ast.unparse(n)}: " + ("object.__getattribute__ on self inside StrictUndefined" if ok else "reflective attribute"))
                 elif isinstance(n, ast.Attribute) and n.attr == "format" and isinstance(getattr(n, "ctx", None), ast.Load):
                     # str.format would let a format string reach attributes ({0.__class__}); only literal receivers are fine
                     n_sites += 1
                     ok = isinstance(n.value, ast.Constant) or m.name.endswith("babel")
-                    _ob(obs, f"{m.name}:{qual}/site.str-format@{n.lineno}", ok, f"{ast.unparse(n)}: " + ("literal template / babel pattern API" if ok else "str.format on a non-literal"))
+                    _ob(obs, f"{m.name}:{qual}/site.str-format@{_ordinal(fn, n, ast.Attribute)}", ok, f"{ast.unparse(n)}: " + ("literal template / babel pattern API" if ok else "str.format on a non-literal"))
     _ob(obs, "liquid2/site.reflection.count", n_sites >= 20, f"{n_sites} reflective sites classified")
     # ---- the item getters touch data only through the documented protocol
     cm = repo.module("liquid2.context")
@@ -801,7 +827,7 @@ def c20_sites(repo_root, tier):
                         body = ast.unparse(ast.Module(body=n.body, type_ignores=[]))
                         uses_value = ".value" in body
                         ok = (not uses_value) or ("unescape(" in body and (kind == "DOUBLE_QUOTE_STRING" or "replace(\"\\\\'\", \"'\")" in body))
-                        _ob(obs, f"{m.name}:{qual}/site.string-literal-decoded@{n.lineno - fn.lineno}.{kind}", ok,
+                        _ob(obs, f"{m.name}:{qual}/site.string-literal-decoded@{_ordinal(fn, n, ast.If)}.{kind}", ok,
                             f"{kind} token value " + ("is decoded with unescape()" + (" after \\' -> '" if kind == "SINGLE_QUOTE_STRING" else "") if ok else "is used without unescape()"))
             # a test that accepts either quote kind (`is_token_type(t, SINGLE..) or is_token_type(t, DOUBLE..)`)
             if isinstance(n, ast.If):
@@ -813,7 +839,7 @@ def c20_sites(repo_root, tier):
                            and any(ast.unparse(a).endswith(".value") for a in list(c.args) + [k.value for k in c.keywords])]
                     decoders = ("unescape(", "parse_string_or_identifier(", "parse_string_or_path(", "parse_primitive(")
                     ok = not raw and (("StringLiteral(" not in body and ".value" not in body) or any(d in body for d in decoders))
-                    _ob(obs, f"{m.name}:{qual}/site.string-literal-decoded@{n.lineno - fn.lineno}.EITHER_QUOTE", ok,
+                    _ob(obs, f"{m.name}:{qual}/site.string-literal-decoded@{_ordinal(fn, n, ast.If)}.EITHER_QUOTE", ok,
                         "a string token of either quote kind is turned into a value through a decoder" if ok else "a StringLiteral is built from the raw token text (escape sequences are not decoded)")
     _ob(obs, "liquid2/site.string-literal-sites.count", n_sites >= 8, f"{n_sites} string-literal parse sites found")
     # (2) the lexer keeps the raw text of bracketed string segments, decoded where the path is built
@@ -1232,7 +1258,8 @@ def c12_sites(repo_root, tier):
             continue
         idents = set()
         for n in ast.walk(pfn):
-            if isinstance(n, (ast.Assign, ast.AnnAssign)) and n.value is not None and any(isinstance(c, ast.Call) and ast.unparse(c.func) == "parse_string_or_identifier" for c in ast.walk(n.value)):
+            # the local *is* the Identifier (not a value derived from it, e.g. StringLiteral(value=str(parse_string_or_identifier(t))))
+            if isinstance(n, (ast.Assign, ast.AnnAssign)) and isinstance(n.value, ast.Call) and ast.unparse(n.value.func) == "parse_string_or_identifier":
                 tgt = n.targets[0] if isinstance(n, ast.Assign) else n.target
                 if isinstance(tgt, ast.Name):
                     idents.add(tgt.id)
@@ -1385,7 +1412,7 @@ def c15_sites(repo_root, tier):
     if vexp is not None:
         rec = [st for st in vexp.body if isinstance(st, ast.For) and ast.unparse(st.iter) == "expr.children()"]
         ok = len(rec) == 1 and ast.unparse(rec[0].body[0]) == f"yield from visit_expression({ast.unparse(rec[0].target)}, lineno)"
-        first = vexp.body[0]
+        first = _body_wo_doc(vexp)[0] if _body_wo_doc(vexp) else None
         ok = ok and isinstance(first, ast.If) and ast.unparse(first.test) == "isinstance(expr, (FilteredExpression, TernaryFilteredExpression))"
         if ok:
             loop = first.body[0]
@@ -1618,7 +1645,7 @@ def c02_sites(repo_root, tier):
                     if isinstance(t, ast.Try) and any(x is call for st in t.body for x in ast.walk(st)):
                         names = " ".join(ast.unparse(h.type) for h in t.handlers if h.type is not None)
                         ok = ok or ("OverflowError" in names and "OSError" in names)
-                _ob(obs, f"{m.name}:{qual}/site.fromtimestamp-guarded@{call.lineno}", ok,
+                _ob(obs, f"{m.name}:{qual}/site.fromtimestamp-guarded@{_ordinal(fn, call)}", ok,
                     "datetime.fromtimestamp(x) for a data-supplied x sits in a try that handles OverflowError and OSError" if ok
                     else "datetime.fromtimestamp(x) outside try/except (OverflowError, OSError): a large timestamp escapes as a non-Liquid exception")
     _ob(obs, "liquid2/site.fromtimestamp.count", n >= 2, f"{n} fromtimestamp call sites")
